@@ -9,6 +9,7 @@ mod c01;
 mod c02;
 mod c03;
 mod c04;
+mod c05;
 mod c06;
 mod c07;
 mod jwtu;
@@ -42,6 +43,7 @@ fn run_line(prop: &str, line: &str) -> String {
     "C02" => c02::run(args),
     "C03" => c03::run(args),
     "C04" => c04::run(args),
+    "C05" => c05::run(args),
     "C06" => c06::run(args),
     "C07" => c07::run(args),
     "C08" => c08::run(args),
@@ -84,6 +86,7 @@ fn main() {
         "C02" => c02::gen(thorough, seed, &mut out),
         "C03" => c03::gen(thorough, seed, &mut out),
         "C04" => c04::gen(thorough, seed, &mut out),
+        "C05" => c05::gen(thorough, seed, &mut out),
         "C06" => c06::gen(thorough, seed, &mut out),
         "C07" => c07::gen(thorough, seed, &mut out),
         "C08" => c08::gen(thorough, seed, &mut out),
